@@ -5,8 +5,13 @@
     Decoding itself ([wire::read]) is C13's subject; here it is the parameter [decode], which
     yields the message type or a [DecodeError] with the type when it was read. Whether an [Init] is
     acceptable (chain and feature compatibility, every handler's [peer_connected]) and whether a
-    handler asks for a disconnect are the oracles [init_ok] / [handler_ok]. Not modelled:
-    [start_batch] / batched [commitment_signed] collection (splicing). *)
+    handler asks for a disconnect are the oracles [init_ok] / [handler_ok].
+
+    The function follows the ORDER of the code path: Init handling, then the
+    [their_features.is_none()] gate, then the [start_batch] / batched [commitment_signed]
+    collection (which calls [handle_commitment_signed_batch] itself), then
+    [gossip_timestamp_filter], then the generic dispatch. The message classification the path
+    branches on is [mkind]. *)
 Require Import LdkV.Prim.U64.
 From Coq Require Import List.
 Import ListNotations.
@@ -17,11 +22,31 @@ Inductive derr :=
 | UnknownVersion | UnknownRequiredFeature | InvalidValue | ShortRead
 | BadLengthDescriptor | IoErr | UnsupportedCompression | DangerousValue.
 
+(** what [do_handle_message_holding_peer_lock] branches on *)
+Inductive mkind :=
+| KInit
+| KStartBatch (channel_id : bytes) (batch_size : Z) (for_commitment_signed : bool)
+                 (* [msg.message_type == Some(CommitmentSigned::TYPE)] *)
+| KCommitmentSigned (channel_id : bytes)
+| KGossipFilter
+| KOther (ty : Z).
+
 Inductive dres :=
-| DOk (ty : Z)
+| DOk (k : mkind)
 | DErr (e : derr) (ty : option Z).
 
-Definition TYPE_INIT : Z := 16.
+Definition BATCH_SIZE_LIMIT : Z := 20.
+
+Fixpoint beqb (a b : bytes) : bool :=
+  match a, b with
+  | [], [] => true
+  | x :: a', y :: b' => (x =? y) && beqb a' b'
+  | _, _ => false
+  end.
+
+(** [peer.their_features.is_some()] and [peer.message_batch] (channel, expected size, collected) *)
+Record gstate := mk_g { g_init : bool; g_batch : option (bytes * Z * Z) }.
+Definition gate0 : gstate := mk_g false None.
 
 (** [is_gossip_msg]: ChannelAnnouncement 256, NodeAnnouncement 257, ChannelUpdate 258,
     QueryShortChannelIds 261, ReplyShortChannelIdsEnd 262, QueryChannelRange 263,
@@ -55,32 +80,66 @@ Section Gate.
   Variable init_ok : bytes -> bool.
   Variable handler_ok : bytes -> bool.
 
-  (** one decrypted message [m] with [their_features.is_some() = init_seen]:
-      events, and [Some init_seen'] to go on or [None] for [Err(PeerHandleError)] *)
-  Definition gate_msg (init_seen : bool) (m : bytes) : list event * option bool :=
+  (** the generic dispatch of [do_handle_message_without_peer_lock] (or the batch handler) *)
+  Definition deliver (g : gstate) (m : bytes) : list event * option gstate :=
+    if handler_ok m then ([EvFrame m; EvDeliver], Some g) else ([EvFrame m; EvDeliver], None).
+
+  (** one decrypted message [m] in gate state [g]: events, and [Some g'] to go on or [None] for
+      [Err(PeerHandleError)] / a disconnecting [LightningError] *)
+  Definition gate_msg (g : gstate) (m : bytes) : list event * option gstate :=
     match decode m with
     | DErr e ty =>
       match decode_policy e ty with
-      | PIgnore => ([EvFrame m; EvIgnored false], Some init_seen)
-      | PWarnIgnore => ([EvFrame m; EvIgnored true], Some init_seen)
+      | PIgnore => ([EvFrame m; EvIgnored false], Some g)
+      | PWarnIgnore => ([EvFrame m; EvIgnored true], Some g)
       | PDisconnect => ([EvFrame m], None)
       end
-    | DOk ty =>
-      if ty =? TYPE_INIT then
-        if negb (init_ok m) || init_seen then ([EvFrame m], None)
-        else ([EvFrame m; EvInit], Some true)
-      else if negb init_seen then ([EvFrame m], None)   (* "Peer sent non-Init first message" *)
-      else if handler_ok m then ([EvFrame m; EvDeliver], Some init_seen)
-      else ([EvFrame m; EvDeliver], None)
+    | DOk KInit =>
+      (* "Need an Init as first message": compatibility checks, duplicate Init, peer_connected *)
+      if negb (init_ok m) || g_init g then ([EvFrame m], None)
+      else ([EvFrame m; EvInit], Some (mk_g true (g_batch g)))
+    | DOk k =>
+      if negb (g_init g) then ([EvFrame m], None)   (* "Peer sent non-Init first message" *)
+      else
+        match k with
+        | KInit => ([EvFrame m], None)
+        | KStartBatch chan size for_cs =>
+          match g_batch g with
+          | Some _ => ([EvFrame m], None)            (* previous batch not completed *)
+          | None =>
+            if size <=? 1 then ([EvFrame m; EvIgnored true], Some g)      (* warning, ignored *)
+            else if BATCH_SIZE_LIMIT <? size then ([EvFrame m], None)
+            else if for_cs then ([EvFrame m], Some (mk_g (g_init g) (Some (chan, size, 0))))
+            else ([EvFrame m], Some g)               (* unknown batch type: ignored *)
+          end
+        | KCommitmentSigned chan =>
+          match g_batch g with
+          | Some (bchan, size, n) =>
+            if negb (beqb chan bchan) then ([EvFrame m], None)
+            else if n + 1 =? size then deliver (mk_g (g_init g) None) m   (* handle_commitment_signed_batch *)
+            else ([EvFrame m], Some (mk_g (g_init g) (Some (bchan, size, n + 1))))
+          | None => deliver g m
+          end
+        | KGossipFilter =>
+          match g_batch g with
+          | Some _ => ([EvFrame m], None)            (* unexpected message during a batch *)
+          | None => ([EvFrame m], Some g)            (* only sets the sync status *)
+          end
+        | KOther _ =>
+          match g_batch g with
+          | Some _ => ([EvFrame m], None)
+          | None => deliver g m
+          end
+        end
     end.
 
   (** the gate applied directly to a list of plaintext messages: the specification the
       encrypted, fragmented transport is shown to refine *)
-  Fixpoint gate_trace (init_seen : bool) (ms : list bytes) : list event * option bool :=
+  Fixpoint gate_trace (g : gstate) (ms : list bytes) : list event * option gstate :=
     match ms with
-    | [] => ([], Some init_seen)
+    | [] => ([], Some g)
     | m :: ms' =>
-      match gate_msg init_seen m with
+      match gate_msg g m with
       | (evs, None) => (evs, None)
       | (evs, Some b) => let '(evs', r) := gate_trace b ms' in (evs ++ evs', r)
       end
